@@ -80,7 +80,16 @@ pub fn gen_schema(rng: &mut Rng, name: &str, wide: bool) -> (String, Vec<ColDef>
             4 => CT::Str(255),
             _ => CT::Str(3),
         };
-        let nm = if i == 0 { "K".to_string() } else { format!("C{i}") };
+        // mostly K, C1, C2, ...; now and then a name that differs from an earlier column's only in
+        // the case of its letters (names are case-sensitive: K and k are two columns)
+        let nm = if i == 0 {
+            "K".to_string()
+        } else if rng.chance(1, 7) {
+            if rng.chance(1, 2) { "k".to_string() } else { format!("c{}", 1 + rng.below(i as u64)) }
+        } else {
+            format!("C{i}")
+        };
+        let nm = if cols.iter().any(|c: &ColDef| c.name == nm) { format!("C{i}") } else { nm };
         let mut c = ColDef::new(&nm, ct.clone());
         c.key = i == 0 || (i == 1 && rng.chance(1, 4));
         c.nullable = if c.key { rng.chance(1, 5) } else { rng.chance(2, 3) };
@@ -282,11 +291,22 @@ pub fn gen_session(out: &mut Out, rng: &mut Rng, cfg: &HistCfg) {
         out.req("set_db_cp", format!("set_db_cp {cp}"));
     }
     let mut db = RefDb::default();
-    let names = ["A", "B", "Tbl3", "Long_Table.Name9"];
-    let nt = 1 + rng.below(3) as usize;
-    for name in names.iter().take(nt) {
+    // now and then table and column names containing dots that read alike when joined by a dot:
+    // table A with column B.Dc, and table A.B with column Dc
+    let dotted = rng.chance(1, 6);
+    let names = if dotted { ["A", "A.B", "A.B.Dc", "Long_Table.Name9"] } else { ["A", "B", "Tbl3", "Long_Table.Name9"] };
+    let nt = if dotted { 2 + rng.below(2) as usize } else { 1 + rng.below(3) as usize };
+    for (ti, name) in names.iter().take(nt).enumerate() {
         let wide = rng.chance(1, 5);
-        let (n, cols) = gen_schema(rng, name, wide);
+        let (n, mut cols) = gen_schema(rng, name, wide);
+        if dotted && ti < 2 {
+            let mut c = ColDef::new(if ti == 0 { "B.Dc" } else { "Dc" }, CT::Str(8));
+            c.nullable = true;
+            if rng.chance(1, 2) {
+                c.cat = Some(if ti == 0 { "Identifier" } else { "Text" });
+            }
+            cols.push(c);
+        }
         let toks: Vec<String> = cols.iter().map(|c| c.tok()).collect();
         out.req("create_table", format!("create_table {} {}", hex_of_str(&n), toks.join(" ")));
         db.tables.insert(n, RefTable { cols, rows: vec![] });
